@@ -338,3 +338,272 @@ Check endemic_hyps_satisfiable : group_laws 11 (zq33_group 11 eot_lt_1_11) /\
   prime 11 /\
   (forall ro idx sid pk, h_function_opt (zq 11) (zq33_group 11 eot_lt_1_11) eot_zero_oracle ro idx sid pk <> None).
 Print Assumptions endemic_hyps_satisfiable.
+
+(* ------------------------------------------------------------------ non-zero sender scalars, prime order *)
+From SL Require Import Model.Matrix Proofs.MatrixInv Proofs.EndemicNonzero.
+
+(** NON-ZERO sender scalars (the sender draws NonZeroScalar::random) and a PRIME group order.
+    Honest exchange, t_b_other <> 0 (mod q): receiver key = sender's OTHER key  ->  H2 collision on two different
+    queries, or the hash-to-curve output on the fresh query (1-c, idx, sid, r_c) equals the ONE point
+    ((t_a * t_b_c * t_b_o^-1) mod q) * gen - r_o, a function of values fixed before that query was made
+    (t_b_o^-1 = zq_invert, the model of Scalar::invert; for t_b_o = 0 the equation of endemic_other_key is trivial). *)
+Theorem endemic_other_key_single_point : forall G (O : group_ops G) (H : transcript_oracle) q, group_laws q O -> enc33_roundtrip G O -> prime q ->
+  forall sid bits tas ros tbs skeys rkeys idx,
+  let rn := eot_receiver_new G O H sid bits tas ros in
+  let sp := eot_sender_process G O H sid (snd rn) tbs in
+  snd sp = Val skeys -> eot_receiver_process G O H (fst rn) (fst sp) = Val (bits, rkeys) ->
+  (idx < 256)%nat ->
+  let c := bit_at bits idx in
+  let ta := nth idx tas 0 in
+  let ro := nth idx ros (g_id O) in
+  let rc := recv_r_choice G O H sid c (N.of_nat idx) ta ro in
+  let tb_c := if c then snd (nth idx tbs (0, 0)) else fst (nth idx tbs (0, 0)) in
+  let tb_o := if c then fst (nth idx tbs (0, 0)) else snd (nth idx tbs (0, 0)) in
+  let h_fresh := h_function G O H (ro_of_bit (negb c)) (N.of_nat idx) sid rc in
+  tb_o mod q <> 0 ->
+  nth idx rkeys [] = (if c then fst (nth idx skeys ([], [])) else snd (nth idx skeys ([], []))) ->
+  h2_collision G O H (N.of_nat idx) (g_smul O ta (g_smul O tb_c (g_gen O))) (g_smul O tb_o (g_add O ro h_fresh)) \/
+  (exists inv, zq_invert q (tb_o mod q) = Some inv /\ (tb_o * inv) mod q = 1 /\
+     h_fresh = g_add O (g_smul O ((ta * tb_c * inv) mod q) (g_gen O)) (g_neg O ro) /\
+     forall k k', h_query G O (ro_of_bit (negb c)) (N.of_nat idx) sid rc k <>
+                  h_query G O (ro_of_bit c) (N.of_nat idx) sid ro k').
+Proof. exact endemic_other_key_single_point_lem. Qed.
+Check endemic_other_key_single_point : forall G (O : group_ops G) (H : transcript_oracle) q, group_laws q O -> enc33_roundtrip G O -> prime q ->
+  forall sid bits tas ros tbs skeys rkeys idx,
+  let rn := eot_receiver_new G O H sid bits tas ros in
+  let sp := eot_sender_process G O H sid (snd rn) tbs in
+  snd sp = Val skeys -> eot_receiver_process G O H (fst rn) (fst sp) = Val (bits, rkeys) ->
+  (idx < 256)%nat ->
+  let c := bit_at bits idx in
+  let ta := nth idx tas 0 in
+  let ro := nth idx ros (g_id O) in
+  let rc := recv_r_choice G O H sid c (N.of_nat idx) ta ro in
+  let tb_c := if c then snd (nth idx tbs (0, 0)) else fst (nth idx tbs (0, 0)) in
+  let tb_o := if c then fst (nth idx tbs (0, 0)) else snd (nth idx tbs (0, 0)) in
+  let h_fresh := h_function G O H (ro_of_bit (negb c)) (N.of_nat idx) sid rc in
+  tb_o mod q <> 0 ->
+  nth idx rkeys [] = (if c then fst (nth idx skeys ([], [])) else snd (nth idx skeys ([], []))) ->
+  h2_collision G O H (N.of_nat idx) (g_smul O ta (g_smul O tb_c (g_gen O))) (g_smul O tb_o (g_add O ro h_fresh)) \/
+  (exists inv, zq_invert q (tb_o mod q) = Some inv /\ (tb_o * inv) mod q = 1 /\
+     h_fresh = g_add O (g_smul O ((ta * tb_c * inv) mod q) (g_gen O)) (g_neg O ro) /\
+     forall k k', h_query G O (ro_of_bit (negb c)) (N.of_nat idx) sid rc k <>
+                  h_query G O (ro_of_bit c) (N.of_nat idx) sid ro k').
+Print Assumptions endemic_other_key_single_point.
+
+(** Receiver under sidR, sender under sidS <> sidR, both sender scalars non-zero: the chosen-side coincidence is a plain
+    collision Hc(..sidS..) = Hc(..sidR..) on two different queries, the other-side coincidence a single-point event. *)
+Theorem endemic_session_binding_single_point : forall G (O : group_ops G) (H : transcript_oracle) q, group_laws q O -> enc33_roundtrip G O -> prime q ->
+  forall sidR sidS bits tas ros tbs skeys rkeys idx (b : bool),
+  sidR <> sidS ->
+  let rn := eot_receiver_new G O H sidR bits tas ros in
+  let sp := eot_sender_process G O H sidS (snd rn) tbs in
+  snd sp = Val skeys -> eot_receiver_process G O H (fst rn) (fst sp) = Val (bits, rkeys) ->
+  (idx < 256)%nat ->
+  let c := bit_at bits idx in
+  let ta := nth idx tas 0 in
+  let ro := nth idx ros (g_id O) in
+  let rc := recv_r_choice G O H sidR c (N.of_nat idx) ta ro in
+  let tb_c := if c then snd (nth idx tbs (0, 0)) else fst (nth idx tbs (0, 0)) in
+  let tb_o := if c then fst (nth idx tbs (0, 0)) else snd (nth idx tbs (0, 0)) in
+  let hS := h_function G O H (ro_of_bit c) (N.of_nat idx) sidS ro in
+  let hR := h_function G O H (ro_of_bit c) (N.of_nat idx) sidR ro in
+  let h_fresh := h_function G O H (ro_of_bit (negb c)) (N.of_nat idx) sidS rc in
+  tb_c mod q <> 0 -> tb_o mod q <> 0 ->
+  nth idx rkeys [] = (if b then snd (nth idx skeys ([], [])) else fst (nth idx skeys ([], []))) ->
+  (b = c /\ h2_collision G O H (N.of_nat idx) (g_smul O ta (g_smul O tb_c (g_gen O))) (g_smul O tb_c (g_add O rc hS))) \/
+  (b = c /\ hS = hR /\
+     forall k k', h_query G O (ro_of_bit c) (N.of_nat idx) sidS ro k <> h_query G O (ro_of_bit c) (N.of_nat idx) sidR ro k') \/
+  (b = negb c /\ h2_collision G O H (N.of_nat idx) (g_smul O ta (g_smul O tb_c (g_gen O))) (g_smul O tb_o (g_add O ro h_fresh))) \/
+  (b = negb c /\ exists inv, zq_invert q (tb_o mod q) = Some inv /\ (tb_o * inv) mod q = 1 /\
+     h_fresh = g_add O (g_smul O ((ta * tb_c * inv) mod q) (g_gen O)) (g_neg O ro)).
+Proof. exact endemic_session_binding_single_point_lem. Qed.
+Check endemic_session_binding_single_point : forall G (O : group_ops G) (H : transcript_oracle) q, group_laws q O -> enc33_roundtrip G O -> prime q ->
+  forall sidR sidS bits tas ros tbs skeys rkeys idx (b : bool),
+  sidR <> sidS ->
+  let rn := eot_receiver_new G O H sidR bits tas ros in
+  let sp := eot_sender_process G O H sidS (snd rn) tbs in
+  snd sp = Val skeys -> eot_receiver_process G O H (fst rn) (fst sp) = Val (bits, rkeys) ->
+  (idx < 256)%nat ->
+  let c := bit_at bits idx in
+  let ta := nth idx tas 0 in
+  let ro := nth idx ros (g_id O) in
+  let rc := recv_r_choice G O H sidR c (N.of_nat idx) ta ro in
+  let tb_c := if c then snd (nth idx tbs (0, 0)) else fst (nth idx tbs (0, 0)) in
+  let tb_o := if c then fst (nth idx tbs (0, 0)) else snd (nth idx tbs (0, 0)) in
+  let hS := h_function G O H (ro_of_bit c) (N.of_nat idx) sidS ro in
+  let hR := h_function G O H (ro_of_bit c) (N.of_nat idx) sidR ro in
+  let h_fresh := h_function G O H (ro_of_bit (negb c)) (N.of_nat idx) sidS rc in
+  tb_c mod q <> 0 -> tb_o mod q <> 0 ->
+  nth idx rkeys [] = (if b then snd (nth idx skeys ([], [])) else fst (nth idx skeys ([], []))) ->
+  (b = c /\ h2_collision G O H (N.of_nat idx) (g_smul O ta (g_smul O tb_c (g_gen O))) (g_smul O tb_c (g_add O rc hS))) \/
+  (b = c /\ hS = hR /\
+     forall k k', h_query G O (ro_of_bit c) (N.of_nat idx) sidS ro k <> h_query G O (ro_of_bit c) (N.of_nat idx) sidR ro k') \/
+  (b = negb c /\ h2_collision G O H (N.of_nat idx) (g_smul O ta (g_smul O tb_c (g_gen O))) (g_smul O tb_o (g_add O ro h_fresh))) \/
+  (b = negb c /\ exists inv, zq_invert q (tb_o mod q) = Some inv /\ (tb_o * inv) mod q = 1 /\
+     h_fresh = g_add O (g_smul O ((ta * tb_c * inv) mod q) (g_gen O)) (g_neg O ro)).
+Print Assumptions endemic_session_binding_single_point.
+
+(** Message 1 of another receiver run (session sid') given to the sender of session sid, sender scalar on side b non-zero:
+    key equality forces an H2 collision or the sender's hash-to-curve output on side b to equal one explicit point.
+    (For sid = sid' and b = c' that query is the one the other receiver made itself: an equation, not a fresh-query event.) *)
+Theorem endemic_msg1_substituted_single_point : forall G (O : group_ops G) (H : transcript_oracle) q, group_laws q O -> enc33_roundtrip G O -> prime q ->
+  forall sid bits tas sid' bits' tas' ros' tbs skeys rkeys idx (b : bool),
+  let st := {| rs_bits := bits; rs_ta := tas |} in
+  let rn' := eot_receiver_new G O H sid' bits' tas' ros' in
+  let sp := eot_sender_process G O H sid (snd rn') tbs in
+  snd sp = Val skeys -> eot_receiver_process G O H st (fst sp) = Val (bits, rkeys) ->
+  (idx < 256)%nat ->
+  let c := bit_at bits idx in
+  let c' := bit_at bits' idx in
+  let ta := nth idx tas 0 in
+  let ro' := nth idx ros' (g_id O) in
+  let rc' := recv_r_choice G O H sid' c' (N.of_nat idx) (nth idx tas' 0) ro' in
+  let r0 := if c' then ro' else rc' in
+  let r1 := if c' then rc' else ro' in
+  let tb_c := if c then snd (nth idx tbs (0, 0)) else fst (nth idx tbs (0, 0)) in
+  let tb_b := if b then snd (nth idx tbs (0, 0)) else fst (nth idx tbs (0, 0)) in
+  tb_b mod q <> 0 ->
+  nth idx rkeys [] = (if b then snd (nth idx skeys ([], [])) else fst (nth idx skeys ([], []))) ->
+  (exists P P', h2_collision G O H (N.of_nat idx) P P') \/
+  (exists inv, zq_invert q (tb_b mod q) = Some inv /\ (tb_b * inv) mod q = 1 /\
+     h_function G O H (ro_of_bit b) (N.of_nat idx) sid (if b then r0 else r1) =
+       g_add O (g_smul O ((ta * tb_c * inv) mod q) (g_gen O)) (g_neg O (if b then r1 else r0))).
+Proof. exact endemic_msg1_substituted_single_point_lem. Qed.
+Check endemic_msg1_substituted_single_point : forall G (O : group_ops G) (H : transcript_oracle) q, group_laws q O -> enc33_roundtrip G O -> prime q ->
+  forall sid bits tas sid' bits' tas' ros' tbs skeys rkeys idx (b : bool),
+  let st := {| rs_bits := bits; rs_ta := tas |} in
+  let rn' := eot_receiver_new G O H sid' bits' tas' ros' in
+  let sp := eot_sender_process G O H sid (snd rn') tbs in
+  snd sp = Val skeys -> eot_receiver_process G O H st (fst sp) = Val (bits, rkeys) ->
+  (idx < 256)%nat ->
+  let c := bit_at bits idx in
+  let c' := bit_at bits' idx in
+  let ta := nth idx tas 0 in
+  let ro' := nth idx ros' (g_id O) in
+  let rc' := recv_r_choice G O H sid' c' (N.of_nat idx) (nth idx tas' 0) ro' in
+  let r0 := if c' then ro' else rc' in
+  let r1 := if c' then rc' else ro' in
+  let tb_c := if c then snd (nth idx tbs (0, 0)) else fst (nth idx tbs (0, 0)) in
+  let tb_b := if b then snd (nth idx tbs (0, 0)) else fst (nth idx tbs (0, 0)) in
+  tb_b mod q <> 0 ->
+  nth idx rkeys [] = (if b then snd (nth idx skeys ([], [])) else fst (nth idx skeys ([], []))) ->
+  (exists P P', h2_collision G O H (N.of_nat idx) P P') \/
+  (exists inv, zq_invert q (tb_b mod q) = Some inv /\ (tb_b * inv) mod q = 1 /\
+     h_function G O H (ro_of_bit b) (N.of_nat idx) sid (if b then r0 else r1) =
+       g_add O (g_smul O ((ta * tb_c * inv) mod q) (g_gen O)) (g_neg O (if b then r1 else r0))).
+Print Assumptions endemic_msg1_substituted_single_point.
+
+(** The receiver gets the message 2 of ANY other sender run, its own sender's other scalar non-zero: the other-side
+    coincidence is a single-point event of the fresh hash-to-curve query. *)
+Theorem endemic_msg2_substituted_single_point : forall G (O : group_ops G) (H : transcript_oracle) q, group_laws q O -> enc33_roundtrip G O -> prime q ->
+  forall sid bits tas ros tbs sid' msg1' tbs' skeys rkeys idx (b : bool),
+  let rn := eot_receiver_new G O H sid bits tas ros in
+  let sp := eot_sender_process G O H sid (snd rn) tbs in
+  let sp' := eot_sender_process G O H sid' msg1' tbs' in
+  snd sp = Val skeys -> eot_receiver_process G O H (fst rn) (fst sp') = Val (bits, rkeys) ->
+  (idx < 256)%nat ->
+  let c := bit_at bits idx in
+  let ta := nth idx tas 0 in
+  let ro := nth idx ros (g_id O) in
+  let rc := recv_r_choice G O H sid c (N.of_nat idx) ta ro in
+  let tb_c := if c then snd (nth idx tbs (0, 0)) else fst (nth idx tbs (0, 0)) in
+  let tb_o := if c then fst (nth idx tbs (0, 0)) else snd (nth idx tbs (0, 0)) in
+  let tb_c' := if c then snd (nth idx tbs' (0, 0)) else fst (nth idx tbs' (0, 0)) in
+  let h_fresh := h_function G O H (ro_of_bit (negb c)) (N.of_nat idx) sid rc in
+  tb_o mod q <> 0 ->
+  nth idx rkeys [] = (if b then snd (nth idx skeys ([], [])) else fst (nth idx skeys ([], []))) ->
+  (exists P P', h2_collision G O H (N.of_nat idx) P P') \/
+  (b = c /\ (ta * tb_c' - ta * tb_c) mod q = 0) \/
+  (b = negb c /\ exists inv, zq_invert q (tb_o mod q) = Some inv /\ (tb_o * inv) mod q = 1 /\
+     h_fresh = g_add O (g_smul O ((ta * tb_c' * inv) mod q) (g_gen O)) (g_neg O ro)).
+Proof. exact endemic_msg2_substituted_single_point_lem. Qed.
+Check endemic_msg2_substituted_single_point : forall G (O : group_ops G) (H : transcript_oracle) q, group_laws q O -> enc33_roundtrip G O -> prime q ->
+  forall sid bits tas ros tbs sid' msg1' tbs' skeys rkeys idx (b : bool),
+  let rn := eot_receiver_new G O H sid bits tas ros in
+  let sp := eot_sender_process G O H sid (snd rn) tbs in
+  let sp' := eot_sender_process G O H sid' msg1' tbs' in
+  snd sp = Val skeys -> eot_receiver_process G O H (fst rn) (fst sp') = Val (bits, rkeys) ->
+  (idx < 256)%nat ->
+  let c := bit_at bits idx in
+  let ta := nth idx tas 0 in
+  let ro := nth idx ros (g_id O) in
+  let rc := recv_r_choice G O H sid c (N.of_nat idx) ta ro in
+  let tb_c := if c then snd (nth idx tbs (0, 0)) else fst (nth idx tbs (0, 0)) in
+  let tb_o := if c then fst (nth idx tbs (0, 0)) else snd (nth idx tbs (0, 0)) in
+  let tb_c' := if c then snd (nth idx tbs' (0, 0)) else fst (nth idx tbs' (0, 0)) in
+  let h_fresh := h_function G O H (ro_of_bit (negb c)) (N.of_nat idx) sid rc in
+  tb_o mod q <> 0 ->
+  nth idx rkeys [] = (if b then snd (nth idx skeys ([], [])) else fst (nth idx skeys ([], []))) ->
+  (exists P P', h2_collision G O H (N.of_nat idx) P P') \/
+  (b = c /\ (ta * tb_c' - ta * tb_c) mod q = 0) \/
+  (b = negb c /\ exists inv, zq_invert q (tb_o mod q) = Some inv /\ (tb_o * inv) mod q = 1 /\
+     h_fresh = g_add O (g_smul O ((ta * tb_c' * inv) mod q) (g_gen O)) (g_neg O ro)).
+Print Assumptions endemic_msg2_substituted_single_point.
+
+(** ARBITRARY message 1 and message 2, the sender's scalar on side b non-zero: key equality forces an H2 collision or the
+    sender's hash-to-curve output on side b to equal ((t_a * t_b^-1) mod q) * mb - r_b, mb the point the receiver decoded
+    from (possibly adversarial) message 2. *)
+Theorem endemic_key_equal_char_nonzero : forall G (O : group_ops G) (H : transcript_oracle) q, group_laws q O -> enc33_roundtrip G O -> prime q ->
+  forall sidS msg1 tbs skeys st msg2 bits rkeys idx (b : bool),
+  snd (eot_sender_process G O H sidS msg1 tbs) = Val skeys ->
+  eot_receiver_process G O H st msg2 = Val (bits, rkeys) ->
+  (idx < 256)%nat ->
+  let tb_b := if b then snd (nth idx tbs (0, 0)) else fst (nth idx tbs (0, 0)) in
+  tb_b mod q <> 0 ->
+  nth idx rkeys [] = (if b then snd (nth idx skeys ([], [])) else fst (nth idx skeys ([], []))) ->
+  exists r0 r1 mb,
+    g_dec O (fst (nth idx msg1 ([], []))) = Some r0 /\ g_dec O (snd (nth idx msg1 ([], []))) = Some r1 /\
+    g_dec O (chosen_side st msg2 idx) = Some mb /\
+    let ta := nth idx (rs_ta st) 0 in
+    let h := h_function G O H (ro_of_bit b) (N.of_nat idx) sidS (if b then r0 else r1) in
+    (exists inv, zq_invert q (tb_b mod q) = Some inv /\ (tb_b * inv) mod q = 1 /\
+       h = g_add O (g_smul O ((ta * inv) mod q) mb) (g_neg O (if b then r1 else r0))) \/
+    h2_collision G O H (N.of_nat idx) (g_smul O ta mb) (g_smul O tb_b (g_add O (if b then r1 else r0) h)).
+Proof. exact endemic_key_equal_char_nonzero_lem. Qed.
+Check endemic_key_equal_char_nonzero : forall G (O : group_ops G) (H : transcript_oracle) q, group_laws q O -> enc33_roundtrip G O -> prime q ->
+  forall sidS msg1 tbs skeys st msg2 bits rkeys idx (b : bool),
+  snd (eot_sender_process G O H sidS msg1 tbs) = Val skeys ->
+  eot_receiver_process G O H st msg2 = Val (bits, rkeys) ->
+  (idx < 256)%nat ->
+  let tb_b := if b then snd (nth idx tbs (0, 0)) else fst (nth idx tbs (0, 0)) in
+  tb_b mod q <> 0 ->
+  nth idx rkeys [] = (if b then snd (nth idx skeys ([], [])) else fst (nth idx skeys ([], []))) ->
+  exists r0 r1 mb,
+    g_dec O (fst (nth idx msg1 ([], []))) = Some r0 /\ g_dec O (snd (nth idx msg1 ([], []))) = Some r1 /\
+    g_dec O (chosen_side st msg2 idx) = Some mb /\
+    let ta := nth idx (rs_ta st) 0 in
+    let h := h_function G O H (ro_of_bit b) (N.of_nat idx) sidS (if b then r0 else r1) in
+    (exists inv, zq_invert q (tb_b mod q) = Some inv /\ (tb_b * inv) mod q = 1 /\
+       h = g_add O (g_smul O ((ta * inv) mod q) mb) (g_neg O (if b then r1 else r0))) \/
+    h2_collision G O H (N.of_nat idx) (g_smul O ta mb) (g_smul O tb_b (g_add O (if b then r1 else r0) h)).
+Print Assumptions endemic_key_equal_char_nonzero.
+
+(** Non-vacuity of the non-zero-scalar corollaries: over Z_11 with a constant oracle there is a run (t_a = 2,
+    (t_b_0, t_b_1) = (5, 3) at instance 0) satisfying ALL premises of endemic_other_key_single_point: the exchange
+    succeeds, the other scalar 3 is a unit (inverse 4), and the receiver's key equals the sender's other key. *)
+Example endemic_single_point_hyps_satisfiable : let O := zq33_group 11 eot_lt_1_11 in
+  let H := eot_zero_oracle in
+  group_laws 11 O /\ enc33_roundtrip (zq 11) O /\ prime 11 /\
+  exists sid bits tas ros tbs skeys rkeys idx,
+    let rn := eot_receiver_new (zq 11) O H sid bits tas ros in
+    let sp := eot_sender_process (zq 11) O H sid (snd rn) tbs in
+    snd sp = Val skeys /\ eot_receiver_process (zq 11) O H (fst rn) (fst sp) = Val (bits, rkeys) /\
+    (idx < 256)%nat /\
+    let c := bit_at bits idx in
+    let tb_o := if c then fst (nth idx tbs (0, 0)) else snd (nth idx tbs (0, 0)) in
+    tb_o mod 11 <> 0 /\ zq_invert 11 (tb_o mod 11) = Some 4 /\
+    nth idx rkeys [] = (if c then fst (nth idx skeys ([], [])) else snd (nth idx skeys ([], []))).
+Proof. exact endemic_single_point_nonvacuous. Qed.
+Check endemic_single_point_hyps_satisfiable : let O := zq33_group 11 eot_lt_1_11 in
+  let H := eot_zero_oracle in
+  group_laws 11 O /\ enc33_roundtrip (zq 11) O /\ prime 11 /\
+  exists sid bits tas ros tbs skeys rkeys idx,
+    let rn := eot_receiver_new (zq 11) O H sid bits tas ros in
+    let sp := eot_sender_process (zq 11) O H sid (snd rn) tbs in
+    snd sp = Val skeys /\ eot_receiver_process (zq 11) O H (fst rn) (fst sp) = Val (bits, rkeys) /\
+    (idx < 256)%nat /\
+    let c := bit_at bits idx in
+    let tb_o := if c then fst (nth idx tbs (0, 0)) else snd (nth idx tbs (0, 0)) in
+    tb_o mod 11 <> 0 /\ zq_invert 11 (tb_o mod 11) = Some 4 /\
+    nth idx rkeys [] = (if c then fst (nth idx skeys ([], [])) else snd (nth idx skeys ([], []))).
+Print Assumptions endemic_single_point_hyps_satisfiable.
